@@ -501,6 +501,9 @@ func countEdits(m protoreflect.Message, depth int) int {
 			}
 		case fd.IsList():
 			l := v.List()
+			if l.Len() >= 4 {
+				n += 2 // keep the first / the second half
+			}
 			if l.Len() > 1 {
 				n += l.Len() // remove element j
 			}
@@ -556,6 +559,24 @@ func applyEdit(m protoreflect.Message, k *int, depth int) bool {
 			}
 		case fd.IsList():
 			l := m.Mutable(fd).List()
+			if l.Len() >= 4 {
+				if *k < 2 {
+					lo, hi := 0, l.Len()/2
+					if *k == 1 {
+						lo, hi = l.Len()/2, l.Len()
+					}
+					var keep []protoreflect.Value
+					for x := lo; x < hi; x++ {
+						keep = append(keep, l.Get(x))
+					}
+					l.Truncate(0)
+					for _, x := range keep {
+						l.Append(x)
+					}
+					return true
+				}
+				*k -= 2
+			}
 			if l.Len() > 1 {
 				if *k < l.Len() {
 					j := *k
